@@ -128,8 +128,14 @@ def gen_abscissae(rng, n):
             x0 = -20.0
         if rng.random() < 0.12:
             # Julian-day sized abscissae (how the library itself uses it)
-            h = rng.choice((1, 0.5, 0.25, 2, 5, 10))
+            # ... from steps of days down to an ephemeris tabulated every
+            # hour, minute or ten seconds: the abscissae are distinct by a
+            # million times the object's tolerance, but not relative to
+            # their own size
+            h = rng.choice((1, 0.5, 0.25, 2, 5, 10, 1 / 24.0, 1 / 1440.0,
+                            10 / 86400.0))
             x0 = float(rng.randrange(2300000, 2600000)) + rng.choice((0, .5))
+
         xs = [x0 + h * i for i in range(n)]
     else:
         lo = rng.uniform(-50, 20)
@@ -240,6 +246,9 @@ def case_table(mon, xs, ys, kind, qseed):
         mon.cls("n>=6", ident)
     if kind in ("sin", "exp"):
         mon.cls("non-polynomial-data", ident)
+    if gapmin < 1e-9 * max(abs(sx[0]), abs(sx[-1])):
+        mon.cls("step-small-relative-to-the-abscissae", ident,
+                [xs, ys] if n <= 3 else None)
     case = {"x": xs, "y": ys}
     try:
         itp = I(list(xs), list(ys))
